@@ -482,4 +482,9 @@ def r7(F, R):
     c06.r3(F, R)
 
 
-RULES = [("R1", r1, None), ("R2", r2, None), ("R3", r3, None), ("R4", r4, None), ("R5", r5, None), ("R6", r6_clone, None), ("R7", r7, None)]
+def r8_setters(F, R):
+    """The retry builder methods store / forward their arguments under their own names."""
+    roles.check_all_builder_setters(F, R, only=r"^(retries|retry_after|retry_filter|retry_options)$", floor=7)
+
+
+RULES = [("R1", r1, None), ("R2", r2, None), ("R3", r3, None), ("R4", r4, None), ("R5", r5, None), ("R6", r6_clone, None), ("R7", r7, None), ("R8", r8_setters, None)]
